@@ -475,7 +475,7 @@ def gen_thread_sessions(rng, nz):
         elif k == 1:
             yield from gens.gen_rule_zone_session(rng, gens.corpus_rule(i), with_table=(i % 2 == 0), do_find=True, do_findn=True, nprobe=25)
         else:
-            rel = rng.choice(gens.INTERESTING_FILES)
+            rel = rng.choice([f for f in gens.INTERESTING_FILES if os.path.exists(os.path.join(gens.CORPUS, f))])
             ev, data = gens.corpus_event(rel)
             yield ev
             times, _ = gens.parse_tzif_times(data)
@@ -917,4 +917,9 @@ def main(argv):
         return CHECKS[args.pid](args.tier, seed_of())
     except ToolError as e:
         print("TOOL-ERROR:", e)
+        return 2
+    except Exception as e:      # a bug of the machinery is never a verdict about the code
+        import traceback
+        traceback.print_exc()
+        print("TOOL-ERROR: internal error of the checking machinery:", repr(e))
         return 2
